@@ -275,11 +275,30 @@ func (x *FnCtx) binopBV(op token.Token, a, b *Term, w int, signed bool, bt types
 		_ = bw
 		return tb.BVResize(b, maxInt(w, b.Sort.Width), bs && false)
 	}
+	// signed 64-bit counters: as in mode int, overflow is an (optional) obligation and is assumed absent
+	noOvf := func(r *Term, pred *Term) *Term {
+		if signed && w == 64 && site != "" && st != nil && !r.IsConst() {
+			x.optionalOb("ovf", site, st, pred)
+			st.pc = tb.And(st.pc, pred)
+		}
+		return r
+	}
+	zero := tb.BVC(bigZero, w)
 	switch op {
 	case token.ADD:
-		return tb.BVBin("bvadd", a, b)
+		r := tb.BVBin("bvadd", a, b)
+		if signed && w == 64 {
+			an, bn, rn := tb.BVCmp("bvslt", a, zero), tb.BVCmp("bvslt", b, zero), tb.BVCmp("bvslt", r, zero)
+			return noOvf(r, tb.Not(tb.Or(tb.And(tb.Not(an), tb.Not(bn), rn), tb.And(an, bn, tb.Not(rn)))))
+		}
+		return r
 	case token.SUB:
-		return tb.BVBin("bvsub", a, b)
+		r := tb.BVBin("bvsub", a, b)
+		if signed && w == 64 {
+			an, bn, rn := tb.BVCmp("bvslt", a, zero), tb.BVCmp("bvslt", b, zero), tb.BVCmp("bvslt", r, zero)
+			return noOvf(r, tb.Not(tb.Or(tb.And(tb.Not(an), bn, rn), tb.And(an, tb.Not(bn), tb.Not(rn)))))
+		}
+		return r
 	case token.MUL:
 		return tb.BVBin("bvmul", a, b)
 	case token.QUO, token.REM:
